@@ -2722,12 +2722,14 @@ func (pid *PID) notifyParent(signal *supervisionSignal) {
 		directive, ok = pid.supervisor.Directive(new(gerrors.AnyError))
 		if !ok {
 			pid.logger.Debugf("no supervisor directive found for error: %s", errorType(signal.Err()))
+			verifhook.At("sup.notify", pid, -1, 0)
 			pid.suspend(signal.Err().Error())
 			return
 		}
 	}
 
 	pid.logger.Debugf("actor=%s supervisor directive=%s", pid.Name(), directive.String())
+	verifhook.At("sup.notify", pid, int64(directive), 0)
 
 	// create the message to send to the parent
 	msg := &commands.Panicking{
@@ -2899,6 +2901,7 @@ func (pid *PID) handleCompletion(ctx context.Context, config *pipeConfig, comple
 // handlePanicking watches for child actor's failure and act based upon the supervisory strategy
 func (pid *PID) handlePanicking(cid *PID, msg *commands.Panicking) {
 	if cid.ID() == msg.Address.String() {
+		verifhook.At("sup.panicking", cid, int64(msg.Directive), int64(msg.Strategy))
 		directive := msg.Directive
 		includeSiblings := msg.Strategy == supervisor.OneForAllStrategy
 
@@ -2997,12 +3000,14 @@ func (pid *PID) handleRestartDirective(cid *PID, sup *supervisor.Supervisor, inc
 	// the budget only applies within a positive window: without one the
 	// counter never resets, and a handful of faults spread over days would
 	// eventually suspend an actor that is otherwise healthy
+	verifhook.At("sup.faults", cid, faults, int64(len(pids)))
 	if maxRetries := sup.MaxRetries(); maxRetries > 0 && window > 0 && faults > int64(maxRetries) {
 		pid.suspendGroup(cid, pids, faults, maxRetries)
 		return
 	}
 
 	delay := backoffDelay(faults, sup.InitialDelay(), sup.MaxDelay())
+	verifhook.At("sup.spawn", cid, int64(len(pids)), int64(delay))
 
 	for _, spid := range pids {
 		go pid.restartChild(spid, sup, delay)
@@ -3016,6 +3021,7 @@ func (pid *PID) handleRestartDirective(cid *PID, sup *supervisor.Supervisor, inc
 func (pid *PID) suspendGroup(cid *PID, pids []*PID, faults int64, maxRetries uint32) {
 	pid.logger.Warnf("restart budget exhausted for actor=%s: %d consecutive failures with maxRetries=%d", cid.Name(), faults, maxRetries)
 	reason := fmt.Sprintf("restart budget exhausted: %d consecutive failures", faults)
+	verifhook.At("sup.exhausted", cid, faults, int64(maxRetries))
 
 	for _, spid := range pids {
 		if !spid.Equals(cid) && spid.IsRunning() {
@@ -3030,6 +3036,8 @@ func (pid *PID) suspendGroup(cid *PID, pids []*PID, faults int64, maxRetries uin
 // there is nothing else to do until the delay elapses.
 func (pid *PID) restartChild(spid *PID, sup *supervisor.Supervisor, delay time.Duration) {
 	ctx := context.Background()
+	verifhook.At("sup.restart", spid, int64(delay), 0)
+	defer verifhook.At("sup.restarted", spid, 0, 0)
 
 	if delay > 0 {
 		pause.For(delay)
